@@ -187,8 +187,25 @@ func writeIsTriviallySerializableSpecializations(w *formatting.IndentedWriter, e
 	w.WriteStringln("#pragma GCC diagnostic ignored \"-Winvalid-offsetof\"")
 	w.WriteStringln("#endif\n")
 
+	// A record that differs in a previous version is read from / written to streams of that version
+	// field by field through its compatibility serializers. Containers decide on the element *type*
+	// whether to copy elements in bulk, so such a record must not be declared trivially serializable.
+	changedRecords := make(map[string]bool)
+	for _, ns := range env.Namespaces {
+		for _, version := range ns.Versions {
+			for _, change := range ns.DefinitionChanges[version] {
+				if recordChange, ok := change.(*dsl.RecordChange); ok && recordChange.LatestDefinition() != nil {
+					changedRecords[recordChange.LatestDefinition().GetDefinitionMeta().GetQualifiedName()] = true
+				}
+			}
+		}
+	}
+
 	for _, ns := range env.Namespaces {
 		for _, td := range ns.TypeDefinitions {
+			if changedRecords[td.GetDefinitionMeta().GetQualifiedName()] {
+				continue
+			}
 			writeIsTriviallySerializableSpecialization(w, td)
 		}
 	}
